@@ -13,6 +13,10 @@ class Fn:
         self.params = fo.get("params", [])
         self.ex = {int(k): v for k, v in fo.get("exprs", {}).items()}
         self.blocks = {b["id"]: b for b in fo.get("blocks", [])}
+        for b in self.blocks.values():
+            if b.get("noreturn"):
+                # a failed ASMJIT_ASSERT / abort never continues: do not let it reach the exit block
+                b["succs"] = []
         self.entry = fo.get("entry")
         self.exit = fo.get("exit")
         self.preds = {b: [] for b in self.blocks}
